@@ -2,7 +2,7 @@
    concrete witnesses of the open defects (computed with the real SyncML 1.1 rows). *)
 From Coq Require Import List NArith Bool.
 From Coq Require Import String.
-From Wbxml Require Import Model.TablesDefs Model.Codec Model.EncXml Model.XmlRead Gen.TablesData Proofs.EncXmlProofs.
+From Wbxml Require Import Model.TablesDefs Model.Codec Model.EncXml Model.XmlRead Gen.TablesData Proofs.EncXmlProofs Proofs.EncXmlIndent.
 Import ListNotations.
 Local Open Scope N_scope.
 
@@ -70,3 +70,18 @@ Proof. vm_compute. auto. Qed.
 Example ok_tree_reads_back :
   exists out d, enc_xml syncml11 Canonical 0 true [ok_tree] = XOk out /\ read_xml_auto out = ROk d.
 Proof. eexists. eexists. split; [vm_compute; reflexivity|]. vm_compute. reflexivity. Qed.
+
+(* a tree with a CDATA payload (containing a CDATA end) and an embedded DevInf 1.1 document *)
+Definition devinf11 : xlang :=
+  match find (fun l => l_id l =? 2102) main_table with Some l => xlang_of l | None => dummy_lang end.
+Definition drow (i : nat) : tname := TTok (nth i (xl_tags devinf11) dummy_row).
+Definition full_tree : node :=
+  Elt (row 40) [] [Elt (row 38) [] [Elt (row 0) []
+    [Elt (row 21) [] [Elt (row 63) [] [txt [116;101;120;116;47;120;45;118;99;97;114;100]]];
+     Elt (row 15) [] [Elt (row 10) [] [CData [txt [120; 93; 93; 62; 121]]]];
+     Elt (row 15) [] [Elt (row 10) [] [SubTree (Some devinf11) [Elt (drow 0) [] [Elt (drow 1) [] [txt [49; 46; 49]]]]]]]]].
+
+Example full_tree_ok :
+  node_ok_g syncml11 (opts_of_params Indent 2 false) proot None full_tree = true /\
+  exists out d, enc_xml syncml11 Indent 2 false [full_tree] = XOk out /\ read_xml_auto out = ROk d.
+Proof. split; [vm_compute; reflexivity|]. eexists. eexists. split; [vm_compute; reflexivity|]. vm_compute. reflexivity. Qed.
